@@ -36,6 +36,9 @@ def set_triple(rng):
         elif k < 0.6 and c2: c2 = c2 + [rng.choice(c2)]
         elif k < 0.75 and c2: c2[rng.randrange(len(c2))] = gen_spec.spec_string(rng, op=rng.choice(gen_spec.OPS[:7]))[0].strip()
         out.append(rng.choice([",", ", ", " ,"]).join(c2))
+    if cls and rng.random() < 0.5:
+        k = rng.randrange(len(cls) + 1)                                 # the same clauses, combined with &
+        out[rng.randrange(3)] = "AND:" + ",".join(cls[:k]) + "|" + ",".join(cls[k:])
     return out
 
 ESCAPED = ['"a\\x22b\'c"', '"a\\\\x22b\'c"', "'a\\x27b\"c'", '"a\\\\b"', '"a\\x5cb"', '"a\\x62"', '"ab"', "'a\"b'", '"a\\x22b"']
